@@ -44,7 +44,8 @@ put("Givaro::Modular", "precomp_b", "DxC:Compute_t", "!native Compute_t words; t
 for sc in ("Givaro::ModularBalanced", "Givaro::ModularExtended", "Givaro::Montgomery"):
     ring_scope(sc, "RING", ["Element"])
 ring_scope("Givaro::GF2", "RING", ["Element"], skip=("reduce",))
-ring_scope("Givaro::GFqDom", "GFQ", ["Rep"], byvalue=tuple(RING_SHAPES))        # Rep is an integer passed by value: cannot alias
+ring_scope("Givaro::GFqDom", "GFQ", ["Rep"], byvalue=tuple(RING_SHAPES), skip=("reduce",))        # Rep operands are passed by value
+put("Givaro::GFqDom", "reduce", "DV:Rep", "!the operand is passed by value (an integer): cannot alias; a one-line table look-up")
 ring_scope("Givaro::Extension", "EXT", ["Extension::PolElement"], byvalue=("maxpy", "maxpyin", "axmy", "axmyin"), skip=("reduce",))
 for nm in ("random", "nonzerorandom"):
     put("Givaro::Extension", nm, "xDC:Element", "!random output (the const operand is a size hint)")
@@ -58,8 +59,8 @@ for t in ("Rational", "_Element"):
     for nm, sh in (("div", "DCC"), ("divin", "DC"), ("inv", "DC")):
         put("Givaro::FieldInterface", nm, sh + ":" + t, "~RING:%s pure virtual declarations; every implementing domain is driven" % nm)
 ring_scope("Givaro::UnparametricOperations", "RING", ["Element"], skip=("reduce",), indirect="base class of ZRing<T>: driven through zring_I / zring_d / zring_i64")
-put("Givaro::UnparametricOperations", "mod", "DCC:Element", "ZR:mod")
-put("Givaro::UnparametricOperations", "modin", "DC:Element", "ZR:modin")
+put("Givaro::UnparametricOperations", "mod", "DCC:Element", "~ZR:mod base class of ZRing<T>: driven through ZRing<Integer>")
+put("Givaro::UnparametricOperations", "modin", "DC:Element", "~ZR:modin base class of ZRing<T>: driven through ZRing<Integer>")
 for nm in ("abs", "assign", "reduce"):
     put("Givaro::UnparametricZRing", nm, "DC:Element", "ZR:" + nm)
 
@@ -79,15 +80,15 @@ for nm, sh, op in (("abs", "DC", "ZR:abs"), ("logtwo", "DC", "ZR:logtwo"), ("quo
 for nm in ("random", "nonzerorandom"):
     put("Givaro::ZRing", nm, "xDC:Rep", "!random output (the const operand is a size hint)")
 for nm, sh in (("RationalReconstruction", "DDCC"), ("RationalReconstruction", "DDCCCC"), ("RationalReconstruction", "DDCCCxx"), ("ratrecon", "DDCCCxx")):
-    put("Givaro::ZRing", nm, sh + ":Rep", "ZR:ratrecon" + str(len(sh)))
-    put("Givaro::Rational", nm, sh + ":Integer", "~ZR:ratrecon%d private worker called by ZRing<Integer> / the Rational constructor" % len(sh))
+    put("Givaro::ZRing", nm, sh + ":Rep", "ZR:%s%d" % (nm, len(sh)))
+    put("Givaro::Rational", nm, sh + ":Integer", "~ZR:%s%d worker called by ZRing<Integer> / the Rational constructor" % (nm, len(sh)))
 
 # ------------------------------------------------------------------ Integer (gmp++_int.h) and its free functions
 for nm in ("add", "sub", "mul", "div", "divexact", "mod", "trem", "crem", "frem", "ceil", "floor", "trunc"):
     put("Givaro::Integer", nm, "DCC:Integer", "Z:" + nm)
 for nm, ws in (("add", "i64 u64 i32 u32"), ("sub", "i64 u64 i32 u32"), ("mul", "i64 u64 i32 u32"), ("div", "i64 i32 u64"), ("divexact", "i64 u64"),
                ("mod", "i64 u64 i32 u32"), ("trem", "u64"), ("crem", "u64"), ("frem", "u64")):
-    put("Givaro::Integer", nm, "DCx:Integer", ",".join("Z:%s.%s" % (nm, w) for w in ws.split()))
+    put("Givaro::Integer", nm, "DCx:Integer", "Z:" + ",".join("%s.%s" % (nm, w) for w in ws.split()))
 for nm in ("addin", "subin", "mulin", "divin", "modin"):
     put("Givaro::Integer", nm, "DC:Integer", "Z:" + nm)
 put("Givaro::Integer", "neg", "DC:Integer", "Z:neg")
@@ -103,12 +104,14 @@ for nm, sh in (("random_between", "DCC"), ("random_exact", "DC"), ("random_lesst
 for nm, sh, op in (("gcd", "DCC", "Z:gcd"), ("gcd", "DDCC", "Z:gcd4"), ("gcd", "DDDCC", "Z:gcd5"), ("lcm", "DCC", "Z:lcm"), ("inv", "DCC", "Z:inv"),
                    ("invin", "DC", "Z:invin"), ("pow", "DCx", "Z:pow.i64,pow.u64,pow.i32,pow.u32"), ("powmod", "DCCC", "Z:powmod"),
                    ("powmod", "DCxC", "Z:powmod.i64,powmod.u64,powmod.i32,powmod.u32"), ("root", "DCx", "Z:root"), ("sqrt", "DC", "Z:sqrt"),
-                   ("sqrtrem", "DCD", "Z:sqrtrem"), ("sqrtrem", "CD", "Z:sqrtrem.val"), ("ppin", "DC", "Z:ppin")):
+                   ("sqrtrem", "DCD", "Z:sqrtrem"), ("sqrtrem", "CD", "Z:sqrtrem.val")):
     put("Givaro", nm, sh + ":Integer", op)
+put("Givaro", "ppin", "DC:Integer", "!in-place helper of IntNumTheoDom::order (removes a prime factor from res); its second operand is an element of a "
+    "factor list, a different object by construction (ppin(x, x) does not terminate by definition: x / x = 1 divides everything)")
 for nm in ("nextprime", "prevprime"):
-    put("Givaro::Protected", nm, "DC:Integer", "Z:" + nm)
-    put("Givaro::IntPrimeDom", nm, "DCx:Rep", "Z:%s.dom" % nm)
-put("Givaro::IntPrimeDom", "isprimepower", "DC:Rep", "Z:isprimepower")
+    put("Givaro::Protected", nm, "DC:Integer", "ZR:" + nm)
+    put("Givaro::IntPrimeDom", nm, "DCx:Rep", "ZR:%s.dom" % nm)
+put("Givaro::IntPrimeDom", "isprimepower", "DC:Rep", "ZR:isprimepower")
 put("Givaro::IntPrimeDom", "test_Lehmann", "xDC:Rep", "!returns a boolean through a native reference; the Integer operands are const")
 for t in ("Integer", "long"):
     put("Givaro", "Caster", "DC:" + t, "!conversion helper between two values of one type: an assignment")
@@ -140,7 +143,7 @@ put("Givaro::Curried1", "operator()", "DC:Type_t", "~RING:add forwards to a bina
 put("Givaro::Curried2", "operator()", "DC:Type_t", "~RING:add forwards to a binary functor with a bound second operand")
 put("Givaro::ChineseRemainder", "operator()", "DCx:ChineseRemainder::RingElement", "CRT:crt")
 put("Givaro::ChineseRemainder", "operator()", "DCx:ChineseRemainder<type-parameter-0-0,type-parameter-0-1,false>::RingElement", "CRT:crt.nf")
-put("Givaro::RNSsystem", "RnsToMixedRadix", "DC:array", "CRT:mixedradix")
+put("Givaro::RNSsystem", "RnsToMixedRadix", "DC:array", "!operands are Array0 containers of residues (reference counted vectors), not elements of a ring interface")
 
 # ------------------------------------------------------------------ RecInt: ruint<K>, rint<K>, rmint<K,MG>
 U = "ruint<K>"
@@ -161,6 +164,7 @@ for nm, sh, op in (
         ("operator&=", "DC", "op&="), ("operator|=", "DC", "op|="), ("operator^=", "DC", "op^=")):
     put("RecInt", nm, sh + ":" + U, "RU:" + op)
 put("RecInt", "div_r", "DxC:T", "RU:div_r.w")
+put("RecInt", "mod_n", "DxC:" + U, "RU:mod_n.l")
 put("RecInt", "lmul_kara", "DDCC:" + U, "~RU:mul,mulin,op*= documented 'NOT safe' for outputs that are inputs (rumul.h); reached through mul / lmul at K >= 11, "
     "where the callers pass locals; the half-sum order is checked through RecInt::mul (seeded change C15-m3)")
 put("RecInt", "lmul", "xDCx:" + U, "~RU:mul.w word form lmul(limb& ah, ruint& al, b, T c): the body of mul(a, b, T c), driven there")
@@ -236,7 +240,7 @@ OUTSIDE = {
     "Givaro::Poly1FactorDom": "polynomial factorisation: randomised algorithms",
 }
 OUTSIDE_FREE = {("Givaro", "Brillhart"): "IntSqrtModDom", ("Givaro", "Lenstra"): "IntFactorDom", ("Givaro", "Pollard"): "IntFactorDom",
-                ("Givaro", "SplitFactor"): "Poly1FactorDom", ("Givaro", "RnsToMixedRadix"): None}
+                ("Givaro", "SplitFactor"): "Poly1FactorDom"}
 
 
 def lookup(key):
